@@ -45,7 +45,7 @@ P = 'C09'
 BUDGETS = {'C09': (75, 1200, 40)}
 LEVELS = {'C09': 'exploration'}
 ALLOWED = (ServerError, ProtocolError, SSLVerificationError, NetworkError)
-PROBES = {'C09': ['layer.http', 'layer.web', 'layer.robots', 'layer.ftp', 'layer.crawl', 'robots_redirected_to_other_origin', 'crawl_with_warc', 'crawl_restrict_file_names', 'crawl_url_rewriting_option', 'crawl_post_data', 'redirect_to_directory_of_same_name', 'crawl_ftp', 'ftp_odd_size_reply', 'ftp_symlinks', 'continue_with_partial_files', 'timestamping_with_left_over_files', 'long_line', 'raw_random', 'truncated', 'odd_location',
+PROBES = {'C09': ['layer.http', 'layer.web', 'layer.robots', 'layer.ftp', 'layer.crawl', 'robots_redirected_to_other_origin', 'crawl_with_warc', 'crawl_link_extractors_subset', 'crawl_preserve_permissions', 'crawl_restrict_file_names', 'crawl_url_rewriting_option', 'crawl_post_data', 'redirect_to_directory_of_same_name', 'crawl_ftp', 'ftp_odd_size_reply', 'ftp_symlinks', 'continue_with_partial_files', 'timestamping_with_left_over_files', 'long_line', 'raw_random', 'truncated', 'odd_location',
                   'odd_cookie', 'cookie_flood', 'bad_compression', 'ftp_reply_mutated', 'ftp_listing_mutated', 'hostile_html', 'hostile_css', 'hostile_js',
                   'hostile_sitemap', 'hostile_robots', 'real_file_writer', 'per_url_error_seen', 'healthy_fetched_after_hostile', 'reset', 'stall']}
 INFO = {'C09': {
@@ -528,6 +528,9 @@ def layer_crawl(tape, r, tier):
                     ftp_urls.append('ftp://ftp.test/')
                 else:
                     ftp_urls.append('ftp://ftp.test/nosuch%d.bin' % tape.draw(3, 'crawl.ftp.nosuch'))
+            if tape.chance(1, 3, 'crawl.ftp.hidden'):
+                ftp_tree['/.hidden.txt'] = b'served on request, absent from every listing'
+                ftp_urls.append('ftp://ftp.test/.hidden.txt')
             if tape.chance(1, 4, 'crawl.ftp.refused'):
                 ftp_urls.append('ftp://ftp.test:2121/nobody-listens.txt')        # connection refused
             for _ in range(tape.between(1, 2, 'crawl.ftp.nfaults')):
@@ -558,6 +561,13 @@ def layer_crawl(tape, r, tier):
             # how URLs become local file names (default file writer): names are dictated by the links the server supplies
             extra = extra + ['--restrict-file-names=' + tape.choice(('windows', 'windows,lower', 'ascii', 'nocontrol,upper', 'unix,ascii'), 'crawl.rfn.v')]
             r.probes['crawl_restrict_file_names'] += 1
+        if tape.chance(1, 5, 'crawl.link_extractors'):
+            # a subset of the scrapers: code that hands work from one scraper to another must cope with the other being absent
+            extra = extra + ['--link-extractors=' + tape.choice(('html', 'html,css', 'css', 'javascript', 'html,javascript'), 'crawl.le.v')]
+            r.probes['crawl_link_extractors_subset'] += 1
+        if ftp_tree is not None and tape.chance(1, 3, 'crawl.preserve_permissions'):
+            extra = extra + ['--preserve-permissions']          # (after each FTP file its parent directory is listed again)
+            r.probes['crawl_preserve_permissions'] += 1
         # options that rewrite every extracted link (the rewriter runs inside link extraction)
         if tape.chance(1, 4, 'crawl.escaped_fragment'):
             extra.append('--escaped-fragment')
@@ -665,7 +675,7 @@ def layer_crawl(tape, r, tier):
             # (nor with --continue: a page whose left-over file the server does not continue fails, and what it links to with it)
             # (--post-data: wpull replays a POST over a 307/308 hop with the body file at its end, the hop times out - a failure
             # of that URL, handled per URL, and no subject of C09 - so what lies behind such a hop is not demanded)
-            if not with_robots and ftp_tree is None and '--continue' not in argv and '-N' not in argv and not post_replayed and all(x.hostile_kind != 'http' for x in hostile):
+            if not with_robots and ftp_tree is None and '--continue' not in argv and '-N' not in argv and not any(a.startswith('--link-extractors') for a in argv) and not post_replayed and all(x.hostile_kind != 'http' for x in hostile):
                 ref_rows, expected = crawl.reference_crawl(site, starts, opts, own)
                 reqs = {canon(e['url']) for e in server.log}
                 for u in expected:
